@@ -39,7 +39,7 @@ def gen(rs, tier, index):
     kinds = [k for k in KINDS.values() if 'manual' not in k.tags]
     n = rng.choice([3, 6, 12, 20]) if tier == 'quick' else rng.choice([6, 15, 40])
     d = netlist.gen_design(rng, n, [k for k in kinds if not k.seq], hier_depth=rng.choice([0, 1]),
-                           feedback=0.2, seq_kinds=[k for k in kinds if k.seq], seq_frac=0.3)
+                           feedback=0.2, seq_kinds=[k for k in kinds if k.seq], seq_frac=0.3, big=rng.random() < 0.05)
     adv = []
     for nd in d['nodes']:
         k = nd['kind']
